@@ -151,3 +151,38 @@ benign("C07.b-tuple-key", "C07", T,
             )""")
 benign("C07.b-longest-local", "C07", P,
        "        tokens = [x for x in tokens if len(x.value) == max_len]\n", "        longest = [x for x in tokens if len(x.value) == max_len]\n        tokens = longest\n")
+
+# ---------------------------------------------------------------- C12
+PS = "parglare/tables/persist.py"
+fault("C12.ctime", "C12", T, "table_mtime = os.path.getmtime(table_file_name)", "table_mtime = os.path.getctime(table_file_name)", "R12.decision")
+fault("C12.stale-lt", "C12", T, "if os.path.getmtime(g_file_name) > table_mtime:", "if os.path.getmtime(g_file_name) < table_mtime:", "R12.decision")
+fault("C12.stale-root-only", "C12", T, "for g_file_name in grammar.imported_files:", "for g_file_name in [grammar.file_path]:", "R12.decision")
+fault("C12.handler-narrow-keyerror", "C12", T, "        except ValueError:\n            # Incomplete", "        except KeyError:\n            # Incomplete", "R12.decision")
+fault("C12.no-handler", "C12", T,
+      "        try:\n            table = load_table(table_file_name, grammar)\n        except ValueError:\n            # Incomplete or corrupted table file (e.g. an interrupted\n            # write). Calculate the table again.\n            table = None\n",
+      "        table = load_table(table_file_name, grammar)\n", "R12.decision")
+fault("C12.force-load-absent", "C12", T,
+      "    if force_load and not (table_file_name and os.path.exists(table_file_name)):\n        # There is no table file to load. Calculate the table.\n        force_load = False\n", "", "R12.decision")
+fault("C12.cache-layout", "C12", T, "    if in_layout:\n        # For layout grammars always calculate table.", "    if in_layout and not grammar.file_path:\n        # For layout grammars always calculate table.", "R12.decision")
+fault("C12.no-save", "C12", T, "        if table_file_name:\n            with contextlib.suppress(PermissionError):\n                save_table(table_file_name, table)",
+      "        if table_file_name and force_create:\n            with contextlib.suppress(PermissionError):\n                save_table(table_file_name, table)", "R12.decision")
+fault("C12.swap-ps-args", "C12", T, "            start_production,\n            prefer_shifts,\n            prefer_shifts_over_empty,\n            debug=debug,",
+      "            start_production,\n            prefer_shifts_over_empty,\n            prefer_shifts,\n            debug=debug,", "R12.decision")
+fault("C12.new-option", "C12", T, "    in_layout=False,\n    debug=False,\n    **kwargs,\n):\n    \"\"\"\n    Construct table by loading",
+      "    in_layout=False,\n    debug=False,\n    merge_states_eagerly=False,\n    **kwargs,\n):\n    \"\"\"\n    Construct table by loading", "R12.key",
+      edits=[("    in_layout=False,\n    debug=False,\n    **kwargs,\n):\n    \"\"\"\n    Construct table by loading",
+              "    in_layout=False,\n    debug=False,\n    merge_states_eagerly=False,\n    **kwargs,\n):\n    \"\"\"\n    Construct table by loading"),
+             ("            prefer_shifts_over_empty,\n            debug=debug,\n            **kwargs,", "            prefer_shifts_over_empty,\n            debug=debug,\n            merge_eagerly=merge_states_eagerly,\n            **kwargs,")])
+fault("C12.writer-key", "C12", PS, 's["gotos"] = [[nonterminal.fqn', 's["goto"] = [[nonterminal.fqn', "R12.schema")
+fault("C12.writer-name", "C12", PS, "[terminal.fqn, _dump_actions(actions)]", "[terminal.name, _dump_actions(actions)]", "R12.schema")
+fault("C12.sorted-actions", "C12", PS, "    for action in actions:\n        a = {}", "    for action in sorted(actions, key=lambda a: a.action):\n        a = {}", "R12.schema")
+fault("C12.symbol-name", "C12", PS, 's["symbol"] = state.symbol.fqn', 's["symbol"] = state.symbol.name', "R12.schema")
+fault("C12.resort-on-load", "C12", PS, "table = LRTable(states, calc_finish_flags=False)", "table = LRTable(states)", "R12.fields")
+fault("C12.encoding-mismatch", "C12", PS, '    with open(file_name, "w") as f:', '    with open(file_name, "w", encoding="utf-16") as f:', "R12.codec")
+fault("C12.pgec-root-only", "C12", P,
+      "                or any(\n                    Path(g_file).stat().st_mtime > hints_file_compiled.stat().st_mtime\n                    for g_file in self.grammar.imported_files\n                )\n",
+      "                or grammar_file.stat().st_mtime > hints_file_compiled.stat().st_mtime\n", "R12.stale-domain")
+fault("C12.no-calc-conflicts-on-load", "C12", T, "        self.calc_conflicts_and_dynamic_terminals(debug)\n\n    def sort_state_actions",
+      "        if calc_finish_flags:\n            self.calc_conflicts_and_dynamic_terminals(debug)\n\n    def sort_state_actions", "R12.fields")
+benign("C12.b-handler-exception", "C12", T, "        except ValueError:\n            # Incomplete", "        except (ValueError, KeyError):\n            # Incomplete")
+benign("C12.b-narrow-json-ascii", "C12", T, "        except ValueError:\n            # Incomplete", "        except __import__('json').JSONDecodeError:\n            # Incomplete")
